@@ -256,6 +256,7 @@ def replay(ctx, payload):
 
 
 if __name__ == "__main__":
+    import gentie
     setup_repo_path()
     logging.disable(logging.CRITICAL)
     sys_suites = syscheck.make_suites("C08", [("C08", 260, 6000), ("any", 60, 1500)],
@@ -269,7 +270,7 @@ if __name__ == "__main__":
         required_theorems=["Pamiq.Proto.only_stops_for_cause", "Pamiq.Proto.shutdown_call_needs_cause",
                            "Pamiq.Proto.exc_flag_needs_user_fault", "Pamiq.Bookkeep.stats_total",
                            "Pamiq.Bookkeep.uptime_window", "Pamiq.Bookkeep.stats_unguarded_raises"],
-        suites=[suite_stats, suite_uptime_test, suite_uptime_float, *sys_suites],
+        suites=[gentie.suite_for("C08"), suite_stats, suite_uptime_test, suite_uptime_float, *sys_suites],
         search=syscheck.make_search("C08", ["C08"]), replay=replay,
         assumptions=syscheck.PROTO_ASSUMPTIONS + [
             "other bookkeeping on the paths of launch() is covered by its own property: keeper popleft/rmtree "
